@@ -460,8 +460,8 @@ def run(chk, scratch):
                 "tuples where the cluster was split into >=2 regions or fell into the single-bin case")
     n_inproc = 40 if thorough else 6
     n_cli = 10 if thorough else 2
-    kind_sets = [["pile1bin", "valleys", "small", "lowmapq_spliced", "gene_chain_lowmapq"], ["valleys_tail", "long_sparse", "gene_valley", "lowmapq_spliced", "no_match_spliced", "two_gene_bridge"], ["pile2bins", "bridged", "valleys", "no_match_spliced", "neighbour_in_bin"],
-                 ["valleys_tail", "pile1bin", "neighbour_in_bin", "two_gene_bridge"], ["long_sparse", "valleys", "small", "two_gene_bridge"], ["bridged", "valleys_tail", "neighbour_in_bin"]]
+    kind_sets = [["pile1bin", "valleys", "small", "lowmapq_spliced"], ["valleys_tail", "long_sparse", "gene_valley", "lowmapq_spliced", "no_match_spliced", "two_gene_bridge"], ["pile2bins", "bridged", "valleys", "no_match_spliced", "neighbour_in_bin", "gene_chain_lowmapq"],
+                 ["valleys_tail", "pile1bin", "neighbour_in_bin", "two_gene_bridge"], ["long_sparse", "valleys", "small", "two_gene_bridge"], ["bridged", "valleys_tail", "neighbour_in_bin", "gene_chain_lowmapq"]]
     jobs = []
     worlds = {}
     for i in range(n_inproc):
